@@ -46,6 +46,8 @@ struct WorkerOut {
     non_elidable: Vec<u32>,
     restarts: u32,
     samples: Vec<Value>,
+    #[serde(default)]
+    known_hits: BTreeMap<String, (u64, ViolationRec)>,
 }
 
 #[derive(Serialize, Deserialize)]
@@ -74,6 +76,7 @@ struct Args {
     replay: Option<PathBuf>,
     only: Option<String>,
     list: bool,
+    known_file: Option<PathBuf>,
 }
 
 fn parse_args() -> Args {
@@ -89,6 +92,7 @@ fn parse_args() -> Args {
         replay: None,
         only: None,
         list: false,
+        known_file: None,
     };
     let v: Vec<String> = std::env::args().skip(1).collect();
     let mut i = 0;
@@ -132,11 +136,36 @@ fn parse_args() -> Args {
                 i += 1;
             }
             "--list" => a.list = true,
+            "--known-file" => {
+                a.known_file = Some(PathBuf::from(&v[i + 1]));
+                i += 1;
+            }
             other => rt::machinery_error(&format!("unknown argument {other}")),
         }
         i += 1;
     }
     a
+}
+
+/// signatures `harness|case|tag` with status "known" from known_findings.json
+fn known_signatures(args: &Args, property: &str) -> Vec<String> {
+    let Some(p) = &args.known_file else { return Vec::new() };
+    let Ok(txt) = std::fs::read_to_string(p) else { return Vec::new() };
+    let Ok(v) = serde_json::from_str::<Value>(&txt) else { return Vec::new() };
+    v["findings"]
+        .as_array()
+        .map(|a| {
+            a.iter()
+                .filter(|f| f["status"] == "known" && f["property"] == property)
+                .filter_map(|f| f["signature"].as_str().map(|s| s.to_string()))
+                .collect()
+        })
+        .unwrap_or_default()
+}
+
+fn known_tags_for(sigs: &[String], harness: &str, case: &str) -> Vec<String> {
+    let prefix = format!("{harness}|{case}|");
+    sigs.iter().filter_map(|s| s.strip_prefix(&prefix).map(|t| t.to_string())).collect()
 }
 
 fn tier_budget(tier: &str) -> f64 {
@@ -160,19 +189,21 @@ pub fn main(harness: &str, property: &str, cases: Vec<Case>) -> ! {
         std::process::exit(replay_main(harness, p, &cases));
     }
     if let Some((case, k, kk)) = args.job {
-        worker_main(&args, &cases[case], case, k, kk);
+        let sigs = known_signatures(&args, property);
+        let tags = known_tags_for(&sigs, harness, &cases[case].name);
+        worker_main(&args, &cases[case], case, k, kk, tags);
     }
     std::process::exit(parent_main(harness, property, &args, &cases));
 }
 
-fn worker_main(args: &Args, case: &Case, idx: usize, k: u32, kk: u32) -> ! {
+fn worker_main(args: &Args, case: &Case, idx: usize, k: u32, kk: u32, known_tags: Vec<String>) -> ! {
     rt::init_session(3_000_000);
     let mut stages = if args.tier == "thorough" { case.thorough.clone() } else { case.quick.clone() };
     if args.job_first_stage_only {
         stages.truncate(1);
     }
     let budget = args.budget.unwrap_or_else(|| tier_budget(&args.tier));
-    let limits = Limits { deadline: explore::deadline_in(budget), worker: (k, kk) };
+    let limits = Limits { known_tags, deadline: explore::deadline_in(budget), worker: (k, kk) };
     let r = explore::explore(&case.cfg, &stages, &limits, &args.job_ne, case.body.clone());
     let (nstates, transitions, capped) = rt::session_counts();
     let out = args.out.clone().expect("--out");
@@ -219,6 +250,7 @@ fn worker_main(args: &Args, case: &Case, idx: usize, k: u32, kk: u32) -> ! {
         non_elidable: r.non_elidable,
         restarts: r.restarts,
         samples,
+        known_hits: r.known_hits,
     };
     std::fs::write(&out, serde_json::to_vec(&w).unwrap()).unwrap();
     let _ = fatal;
@@ -337,6 +369,9 @@ fn parent_main(harness: &str, property: &str, args: &Args, cases: &[Case]) -> i3
             cmd.arg("--job").arg(case.to_string()).arg(k.to_string()).arg(kk.to_string());
             cmd.arg("--tier").arg(&args.tier).arg("--out").arg(&out);
             cmd.arg("--budget").arg(budget.to_string());
+            if let Some(kf) = &args.known_file {
+                cmd.arg("--known-file").arg(kf);
+            }
             let ne = &agg[&case].ne;
             if !ne.is_empty() {
                 cmd.arg("--ne").arg(ne.iter().map(|x| x.to_string()).collect::<Vec<_>>().join(","));
@@ -443,6 +478,7 @@ fn parent_main(harness: &str, property: &str, args: &Args, cases: &[Case]) -> i3
     let mut samples: Vec<Value> = Vec::new();
     let mut total_outcomes = 0u64;
     let mut states_capped = false;
+    let mut known_json: Vec<Value> = Vec::new();
     for (&ci, a) in &agg {
         let c = &cases[ci];
         let mut exec = 0u64;
@@ -451,6 +487,38 @@ fn parent_main(harness: &str, property: &str, args: &Args, cases: &[Case]) -> i3
         let mut stages: Vec<StageStats> = Vec::new();
         let mut states: Vec<u64> = Vec::new();
         let mut complete = !a.outs.is_empty();
+        let mut known_here: BTreeMap<String, (u64, ViolationRec)> = BTreeMap::new();
+        for o in &a.outs {
+            for (tag, (n, v)) in &o.known_hits {
+                let e = known_here.entry(tag.clone()).or_insert((0, v.clone()));
+                e.0 += n;
+                if v.choices.len() < e.1.choices.len() {
+                    e.1 = v.clone();
+                }
+            }
+        }
+        for (tag, (n, v)) in &known_here {
+            let dir = args.replays.join(property);
+            let _ = std::fs::create_dir_all(&dir);
+            let path = dir.join(format!("{harness}_known_{}_{}.json", sanitize(&c.name), sanitize(tag)));
+            let rf = ReplayFile {
+                engine: "ixmc".into(),
+                harness: harness.into(),
+                property: property.into(),
+                case: c.name.clone(),
+                kind: v.kind.clone(),
+                message: v.message.clone(),
+                choices: v.choices.clone(),
+                non_elidable: a.ne.clone(),
+                pb: v.pb,
+                sb: v.sb,
+            };
+            let _ = std::fs::write(&path, serde_json::to_vec_pretty(&rf).unwrap());
+            known_json.push(json!({
+                "signature": format!("{}|{}|{}", harness, c.name, tag),
+                "violating_schedules": n, "replay": path, "message": v.message,
+            }));
+        }
         for o in &a.outs {
             exec += o.executions;
             total_trans += o.transitions;
@@ -567,7 +635,7 @@ fn parent_main(harness: &str, property: &str, args: &Args, cases: &[Case]) -> i3
             violations_json.push(json!({
                 "harness": harness, "case": cases[*ci].name, "kind": v.kind, "message": v.message,
                 "replay": path, "pb": v.pb, "sb": v.sb,
-                "signature": format!("{}|{}|{}|{}", harness, cases[*ci].name, v.kind, normalise(&v.message)),
+                "signature": format!("{}|{}|{}", harness, cases[*ci].name, explore::tag_of(&v.kind, &v.message)),
             }));
             exit = 1;
         } else {
@@ -599,6 +667,7 @@ fn parent_main(harness: &str, property: &str, args: &Args, cases: &[Case]) -> i3
         "cases": case_rows,
         "samples": samples,
         "violations": violations_json,
+        "known_hits": known_json,
         "machinery_errors": machinery,
         "wall_s": t0.elapsed().as_secs_f64(),
     });
@@ -612,6 +681,10 @@ fn parent_main(harness: &str, property: &str, args: &Args, cases: &[Case]) -> i3
         eprintln!("MACHINERY: {m}");
     }
     exit
+}
+
+fn sanitize(s: &str) -> String {
+    s.chars().map(|c| if c.is_ascii_alphanumeric() || c == '-' || c == '_' { c } else { '_' }).collect()
 }
 
 /// strip numbers that vary between runs (addresses) from a failure message
